@@ -11,7 +11,7 @@ import BppProofs.Lemmas.TreeWalk
 at every moment and regardless of earlier queries and edits:
 
 * `isTree_iff` — on consistent tables (C14), the single-visit traversal `isTree`
-  (GlobalGraph.cpp:653) answers true iff `IsTreeFrom g`: there is a parent function, defined on the
+  (GlobalGraph.cpp:668) answers true iff `IsTreeFrom g`: there is a parent function, defined on the
   nodes other than the root and strictly decreasing a depth towards the root, whose father-son pairs
   are exactly the relations of the graph (each way round when the graph is undirected).  Both
   directions are proved on the traversal itself (`Lemmas/TreeDfsSound.lean`, `TreeDfsComplete.lean`).
